@@ -22,14 +22,15 @@ LEVEL_TEXT = {
            "a raising base; after the faults, completion of all other requests and the capacity probe are checked, what flush/gather_and_close raise is compared by identity with the injected "
            "exception objects, and a differential 'twin' family re-runs each scenario with every injected failure replaced by success at the same point and demands an identical event log.",
     "C16": "Exploration by runtime monitoring of the real ControlSession/ControlParser through a real StreamReader and a recording writer: for 4 pool classes x sampled terminal widths the "
-           "handshake reply, the help of every public member enumerated with inspect (not from the parser), the exact command set and the rejection of non-public names are checked.",
+           "handshake reply, the help of every public member enumerated with inspect (not from the parser), the exact command set and the rejection of non-public names are checked, read-only members and static methods are executed as commands; a socket family repeats handshake and help over "
+           "one to three serving periods of the same server object.",
     "C17": "Translation validation by differential execution: each generated well-formed command line (the program) is sent to a served pool while the equivalent direct Python call is made "
-           "on an identically configured twin pool; reply text, public state and the multiset of worker/callback invocations (tagged by a contextvar) must agree after every command.",
+           "on an identically configured twin pool; reply text, public state and the multiset of worker/callback invocations (tagged by a contextvar) must agree after every command; dotted paths also lead into lazily imported packages, subclasses override inherited members, and a decoy pool served in the same process gets the same lines.",
     "C18": "Exploration by runtime monitoring of 1-3 simultaneous real sessions fed valid, invalid-by-construction, mutated, junk and probe lines (whole, split across segments, batched): "
            "writes per line are counted at logical quiescence, replies to state-independent lines are compared with a fresh solo session, probe replies with the pool's own value, "
            "stdout/stderr are captured, SystemExit is trapped.",
     "C19": "Exploration by runtime monitoring over real loopback TCP and Unix sockets: real Control servers, raw stream clients with scripted connect / deferred handshake / command / park / "
-           "disconnect (close, half-close, abort) and the bundled CLI client as a subprocess, with the stop placed anywhere; verdicts are taken at socket quiescence "
+           "disconnect (close, half-close, abort) and the bundled CLI client as a subprocess, with the stop placed anywhere and up to three serving periods per server object; verdicts are taken at socket quiescence "
            "(consecutive idle 1 ms ticks with an empty selector); a 60 s wall-clock watchdog yields INCONCLUSIVE only.",
     "C20": "Fault enumeration by runtime monitoring of the real Queue: every single cancellation placement (consumer x loop iteration) over 6 producer/consumer bases and every pair on 3 bases "
            "is enumerated completely in both tiers, plus random scenarios; task_done() calls are counted per consumer by a harness subclass, join() is judged against the balance of puts and "
@@ -46,7 +47,7 @@ TECHNIQUE = {
     "C03": "runtime monitoring: per-task trace checker (event-order regex, callback state probes via cancel(id) error class, counter equation at every boundary)",
     "C04": "runtime monitoring: shadow-model count/argument-identity checker over invocation events, lock/close placed by sweeps",
     "C05": "runtime monitoring: online bounds (num_concurrent, laziness via counting iterator) + work-conservation at quiescence + offline exactly-once/order",
-    "C06": "runtime monitoring: shadow model of owed vs observed CancelledError deliveries per task, error-class oracle around every cancel() call",
+    "C06": "runtime monitoring: shadow model of owed vs observed CancelledError deliveries per task (suspension points in user code and inside the library's Queue), error-class oracle around every cancel() call; session family: cancel as a control command with a decoy pool, compared with a twin pool",
     "C07": "runtime monitoring: no-start/no-pull-after online checks, delivery accounting per route, sibling completion at final quiescence",
     "C08": "runtime monitoring: return-instant snapshot, empty log suffix after close, until_closed waiters, closed-pool rejection probes, progress by quiescence",
     "C09": "runtime monitoring: public-state snapshot around every rejected call + differential no-trace twin run",
